@@ -1011,11 +1011,12 @@ def run(tier: str, replay: str | None = None):
             terms.append(
                 f"(let V := {value_coq(v)} in let c := {cond_coq(c)} in "
                 "let Np := narrow V c true in let Nn := narrow V c false in "
-                "(Np, Nn, boolab_of V, map (fun (oi : obj * (bool * bool * bool)) => let '(o, (sb, mi, wf)) := oi in pack "
-                "[member o V; match holds c o with Some b => b | None => false end; "
-                "match holds c o with Some _ => true | None => false end; "
-                "member o Np; member o Nn; promotion_negative c o; sb; mi; enum_class_object o; "
-                "wf && cond_ok c o && negb mi && negb sb && negb (promotion_negative c o) && negb (enum_class_object o)]) UNIV_INFO))"
+                "(Np, Nn, boolab_of V, map (fun (oi : obj * (bool * bool * bool)) => let '(o, (sb, mi, wf)) := oi in "
+                "let h := holds c o in let pn := promotion_negative c o in let ec := enum_class_object o in pack "
+                "[member o V; match h with Some b => b | None => false end; "
+                "match h with Some _ => true | None => false end; "
+                "member o Np; member o Nn; pn; sb; mi; ec; "
+                "wf && cond_ok c o && negb mi && negb sb && negb pn && negb ec]) UNIV_INFO))"
             )
         try:
             model = norm(lib.coq_eval(COQ_HEADER + ulist, terms, name="c02", shard=150, jobs=6))
